@@ -168,3 +168,25 @@ def warn_flag(case):
     """`warn=` as given by the caller: on for a third of the cases (every call site sits inside catch_warnings; a
     warning is never a verdict, but the code that decides whether to warn runs)."""
     return (case.get("R", 0) + case.get("H", 0) + 2 * len(case.get("ref", ()))) % 3 == 0
+
+
+class process_mode:
+    """Process-wide switches a user may have flipped before calling the library: for one case in seven the call runs
+    with torch.use_deterministic_algorithms(True) (results are the same numbers; the switch is restored)."""
+
+    def __init__(self, case):
+        self.on = (3 * case.get("R", 0) + case.get("H", 0) + len(case.get("ref", ()))) % 7 == 3
+
+    def __enter__(self):
+        import torch
+
+        self.was = torch.are_deterministic_algorithms_enabled()
+        if self.on:
+            torch.use_deterministic_algorithms(True)
+        return self
+
+    def __exit__(self, *a):
+        import torch
+
+        torch.use_deterministic_algorithms(self.was)
+        return False
